@@ -419,7 +419,7 @@ def gen_case(rng):
 
 
 def plan(tier, seed, n):
-    per = 14 if tier == 'quick' else 1500
+    per = 14 if tier == 'quick' else 800       # (1500 took 28-35 minutes on a busy machine before the histories grew; the shard timeout is 60)
     return [{'n': per} for _ in range(n)]
 
 
